@@ -47,7 +47,8 @@ func (c *Callable) traverse(parent Type, enter func(node, parent Type) TraverseO
 
 func (c *Callable) Copy() *Callable {
 	return &Callable{
-		Body: c.Body,
+		Body:      c.Body,
+		IsClosure: c.IsClosure,
 	}
 }
 
